@@ -1,7 +1,7 @@
 // Correspondence harness, mode `engines` (property C14): a history of engine creations, evaluations on long-lived threads and destructions.
 //   one line = ops separated by ';' :
-//     new <E> <slot>        construct engine E by placement new in pool slot <slot> (the same address is reused by later engines); slot 9 = plain heap
-//     del <E>               destroy engine E (on the main thread)
+//     new <E> <slot> [th]   construct engine E on thread th (default main) by placement new in pool slot <slot> (the same address is reused by later engines); slot 9 = plain heap
+//     del <E> [th]          destroy engine E on thread th (default main)
 //     setl <th> <E> <name> <int>   on thread th (0 = main, 1.. = worker): assign the local `name`, declaring it if needed
 //     getl <th> <E> <name>         -> its value, or undef
 //     setg <th> <E> <name> <int>   global
@@ -71,14 +71,17 @@ int main() {
       if (w.empty()) continue;
       std::string r;
       bool has_result = false;
-      if (w[0] == "new" && w.size() == 3) {
+      if (w[0] == "new" && (w.size() == 3 || w.size() == 4)) {
         const int slot = std::stoi(w[2]);
-        ChaiScript *p = slot < NSLOT ? new (pool[slot]) ChaiScript() : new ChaiScript();
+        const int th = w.size() == 4 ? std::stoi(w[3]) : 0;                 // the thread that runs the constructor
+        ChaiScript *p = nullptr;
+        on(th, [&]() -> std::string { p = slot < NSLOT ? new (pool[slot]) ChaiScript() : new ChaiScript(); return ""; });
         engines[w[1]] = {p, slot};
-      } else if (w[0] == "del" && w.size() == 2) {
+      } else if (w[0] == "del" && (w.size() == 2 || w.size() == 3)) {
         auto it = engines.find(w[1]);
+        const int th = w.size() == 3 ? std::stoi(w[2]) : 0;                 // the thread that runs the destructor
         if (it != engines.end()) {
-          if (it->second.second < NSLOT) it->second.first->~ChaiScript(); else delete it->second.first;
+          on(th, [&]() -> std::string { if (it->second.second < NSLOT) it->second.first->~ChaiScript(); else delete it->second.first; return ""; });
           engines.erase(it);
         }
       } else if (w.size() >= 4) {
